@@ -1,3 +1,83 @@
 import PysphVerif.Driver.Common
-/-! Line-protocol driver for C12 (stub: not built yet). -/
-def main : IO Unit := PysphVerif.Driver.loopPure (fun _ => "bad-op")
+import PysphVerif.Model.SchemeNeeds
+import PysphVerif.Gen.Schemes
+/-!
+Line protocol for C12 (everything is answered from the generated table and
+the model's own computation of needs / verdicts, decoded back to names):
+
+  `schemes`                 → scheme names, comma separated
+  `grid <Scheme>`           → `size=<n>|axes=<axis>:<l1>,<l2>;…`
+  `point <Scheme> <index>`  → `rejected`, `nobody <entry>`, or
+      `labels:<axis>=<label>,…|arr:<name>:<props>|…|eq:<Class>:<dest>:<srcs>:<needsD>:<needsS>:<implicit>|…`
+      `|st:<Class>:<array>:<needs>:<implicit>|…|accepted:<T|F>|complete:<T|F>`
+    where `<srcs>` is `-` for `sources=None`, else `+`-separated array names;
+    name lists are comma separated in `propNames` order, `_` when empty;
+    `needsD/needsS` are what the model computes for
+    `Group([eq]).get_array_names()` (explicit arguments ∪ arrays of the
+    precomputed closure).
+  anything else → `bad-op`
+-/
+namespace PysphVerif.Driver.C12
+open PysphVerif.Wire PysphVerif.SchemeNeeds PysphVerif.Gen.Schemes
+
+def tf (b : Bool) : String := if b then "T" else "F"
+
+def nameList (m : Mask) : String := showList id (namesOf propNames m)
+
+def arrName (b : Body) (i : Nat) : String :=
+  match b.arrays[i]? with
+  | some a => arrayNames.getD a.1 "?"
+  | none => "!invalid"
+
+def showEq (b : Body) (e : EqInst) : String :=
+  match eqKinds[e.kind]? with
+  | none => "eq:!nokind"
+  | some k =>
+    let srcs := match e.sources with
+      | none => "-"
+      | some l => if l.isEmpty then "_" else "+".intercalate (l.map (arrName b))
+    s!"eq:{k.name}:{arrName b e.dest}:{srcs}:{nameList (needsD preTable k)}:{nameList (needsS preTable k)}:{nameList k.implicitD}"
+
+def showStepper (b : Body) (st : Nat × Nat) : String :=
+  match stepKinds[st.1]? with
+  | none => "st:!nokind"
+  | some k => s!"st:{k.name}:{arrName b st.2}:{nameList (stepNeeds k)}:{nameList k.implicitD}"
+
+def showArr (a : Nat × Mask) : String :=
+  s!"arr:{arrayNames.getD a.1 "?"}:{nameList a.2}"
+
+def showPoint (g : SchemeGrid) (i : Nat) : String :=
+  match g.bodyOf[i]? with
+  | none => "bad-op"
+  | some 0 => "rejected"
+  | some (c + 1) =>
+    match bodies[c]? with
+    | none => s!"nobody {c + 1}"
+    | some b =>
+      let labels := ",".intercalate ((labelsOf g i).map (fun p => p.1 ++ "=" ++ p.2))
+      let parts := [s!"labels:{labels}"] ++ b.arrays.map showArr ++ b.eqs.map (showEq b) ++
+        b.steppers.map (showStepper b) ++
+        [s!"accepted:{tf (acceptsBody preTable eqKinds stepKinds b)}",
+         s!"complete:{tf (checkBody preTable eqKinds stepKinds b)}"]
+      "|".intercalate parts
+
+def findGrid (n : String) : Option SchemeGrid := schemeTable.find? (fun g => g.name == n)
+
+def handle (line : String) : String :=
+  match tokens line with
+  | ["schemes"] => ",".intercalate (schemeTable.map (·.name))
+  | ["grid", n] =>
+    match findGrid n with
+    | none => "bad-op"
+    | some g =>
+      let axes := ";".intercalate (g.axes.map (fun a => a.1 ++ ":" ++ ",".intercalate a.2))
+      s!"size={gridSize g}|entries={g.bodyOf.length}|axes={axes}"
+  | ["point", n, i] =>
+    match findGrid n, parseNat? i with
+    | some g, some k => showPoint g k
+    | _, _ => "bad-op"
+  | _ => "bad-op"
+
+end PysphVerif.Driver.C12
+
+def main : IO Unit := PysphVerif.Driver.loopPure PysphVerif.Driver.C12.handle
